@@ -40,8 +40,12 @@ ASSUMPTIONS = (
 ALPHA = b'ab\nc\n-'
 
 
+DEEP = [False]
+
+
 def gen_body(ch):
-    n = ch.small(48, 'body_len') if ch.draw(4, 'bl') else ch.draw(49, 'body_len2')
+    top = 120 if DEEP[0] else 48
+    n = ch.small(top, 'body_len') if ch.draw(4, 'bl') else ch.draw(top + 1, 'body_len2')
     return ch.bytes_from(ALPHA, n, 'byte')
 
 
@@ -64,7 +68,7 @@ W_OPS = ['read_n', 'read', 'read_m1', 'readline', 'readline_n', 'readlines', 're
 
 
 def gen_wsgi_history(ch):
-    n = 1 + ch.draw(8, 'n_ops')
+    n = 1 + ch.draw(13 if DEEP[0] else 8, 'n_ops')
     ops = []
     for _ in range(n):
         k = ch.weighted([6, 2, 1, 4, 3, 1, 1, 2, 1, 1, 3], 'op')
@@ -217,7 +221,7 @@ A_ITER_OPS = ['iter_j', 'iter', 'exhaust', 'close', 'tell', 'eof']
 
 
 def gen_asgi_history(ch):
-    n = 1 + ch.draw(8, 'n_ops')
+    n = 1 + ch.draw(13 if DEEP[0] else 8, 'n_ops')
     mode = ch.draw(3, 'hist_mode')     # 0/1 read-based, 2 iteration-based
     ops = []
     broke = False
@@ -485,6 +489,7 @@ def run_asgi(ctx):
 
 
 def run(ctx):
+    DEEP[0] = ctx.tier == 'thorough'      # deeper bounds in the thorough tier
     if ctx.ch.draw(2, 'stack') == 0:
         run_wsgi(ctx)
     else:
